@@ -47,6 +47,8 @@ def _serve(T):
         return T().run()
     except TypeError:
         return "TypeError"
+    except Exception as e:          # anything else is a wrong answer, not a harness error
+        return "raised " + type(e).__name__
 
 
 def _run(ops, has_rt):
@@ -144,6 +146,13 @@ def _run(ops, has_rt):
     return (2 if ok else 0), trace
 
 
+def _safe_run(ops, has_rt):
+    try:
+        return _run(ops, has_rt)
+    except Exception as e:      # enter / exit / handle themselves must not raise on a well-nested sequence
+        return 0, [("operation raised", type(e).__name__, str(e)[:200])]
+
+
 def _ops_pre(n):
     return ["0 <= op%d < %d" % (i, N_OPS) for i in range(n)]
 
@@ -160,7 +169,7 @@ _WHAT = ("after every step each request type is served by the handler of the inn
          example=dict(op0=0, op1=3, op2=5, has_rt=False), timeout=300,
          bounds="every sequence of 3 operations (1 000 sequences x 2 start states, then unwinding); " + _BOUNDS, what=_WHAT)
 def scoping3(op0: int, op1: int, op2: int, has_rt: bool) -> int:
-    r, trace = _run((op0, op1, op2), has_rt)
+    r, trace = _safe_run((op0, op1, op2), has_rt)
     note("ops", (op0, op1, op2), "has_rt", has_rt, "trace tail", trace[-4:])
     return r
 
@@ -169,7 +178,7 @@ def scoping3(op0: int, op1: int, op2: int, has_rt: bool) -> int:
          pre=_ops_pre(4), example=dict(op0=0, op1=3, op2=4, op3=5, has_rt=False), timeout=600, tier="thorough",
          bounds="every sequence of 4 operations (10 000 x 2); " + _BOUNDS, what=_WHAT)
 def scoping4(op0: int, op1: int, op2: int, op3: int, has_rt: bool) -> int:
-    r, trace = _run((op0, op1, op2, op3), has_rt)
+    r, trace = _safe_run((op0, op1, op2, op3), has_rt)
     note("ops", (op0, op1, op2, op3), "has_rt", has_rt, "trace tail", trace[-4:])
     return r
 
@@ -182,6 +191,6 @@ _R5 = [0, 2, 3, 4, 5, 7, 8, 9]      # reduced alphabet for length 5 (drops the m
          timeout=900, tier="thorough", bounds="every sequence of 5 operations over the reduced alphabet {0,2,3,4,5,7,8,9} (32 768 x 2); " + _BOUNDS,
          what=_WHAT)
 def scoping5(op0: int, op1: int, op2: int, op3: int, op4: int, has_rt: bool) -> int:
-    r, trace = _run((op0, op1, op2, op3, op4), has_rt)
+    r, trace = _safe_run((op0, op1, op2, op3, op4), has_rt)
     note("ops", (op0, op1, op2, op3, op4), "has_rt", has_rt, "trace tail", trace[-4:])
     return r
